@@ -10,6 +10,7 @@ from .terms import TOP
 from .cfg import CFG, term_succs
 from .facts import strip_generics
 import re
+BOOL_TO_INT_RE = re.compile(r'<(?:usize|isize|u\d+|i\d+) as std::convert::From<bool>>|<bool as std::convert::Into<(?:usize|isize|u\d+|i\d+)>>')
 
 IDENTITY_DECLS = {
     'std::clone::Clone::clone', 'std::ops::Deref::deref', 'std::ops::DerefMut::deref_mut',
@@ -770,6 +771,31 @@ class Opa:
         if decl in ('std::convert::Into::into', 'std::convert::From::from') and len(argv) == 1 and NONZERO_RE.search(full) \
                 and ('usize as std::convert::From' in full or 'as std::convert::Into<usize>' in full):
             return argv[0], False
+        if decl in ('std::convert::Into::into', 'std::convert::From::from') and len(argv) == 1 and BOOL_TO_INT_RE.search(full):
+            return argv[0], False       # bool -> integer: false = 0, true = 1, which is how booleans are represented here
+        # Option::map_or(opt, default, f) / map_or_else(opt, d, f) with a known closure: `match opt { Some(v) => f(v), None => default }`
+        if strip_generics(res) in ('std::option::Option::map_or', 'std::option::Option::map_or_else') and len(argv) == 3 and argv[2][0] == 'closure':
+            opt = argv[0]
+            which = None
+            if opt[0] == 'variant' and opt[1] == 'std::option::Option':
+                which = opt[2]
+            else:
+                which = seeds.get('discr', {}).get(t_str(opt))
+                if which is None:
+                    for (pt, fact) in env.get(PC, ()):
+                        if pt == ('discr', opt) and fact[0] == 'eq':
+                            which = fact[1]
+            payload = opt[3][0] if opt[0] == 'variant' and opt[3] else ('field', opt, 1, 0)
+            alts = []
+            if which in (None, 1):
+                r = self.inline(argv[2][1], [argv[2], payload], seeds, depth)
+                alts.append(r if r is not None else ('call', argv[2][1], (argv[2], payload)))
+            if which in (None, 0):
+                d_ = argv[1]
+                if strip_generics(res).endswith('map_or_else'):
+                    d_ = (self.inline(d_[1], [d_], seeds, depth) if d_[0] == 'closure' else None) or ('call', 'default', (d_,))
+                alts.append(d_)
+            return (alts[0] if len(alts) == 1 else mk_set(alts, self.width)), False
         # `x?` on an Option: branch(x) is Continue(payload) iff x is Some; from_residual(None) is None
         if decl == 'std::ops::Try::branch' and len(argv) == 1 and 'std::option::Option<' in full.split(' as ')[0]:
             return ('call', 'try_branch_option', (argv[0],)), False
